@@ -259,6 +259,15 @@ def d3(run: Run, prog: Program):
                     f"closed: `>= {axis}_min` and `<= {axis}_max` like its sibling "
                     f"axes")
     run.floor("D3 axis bound comparisons", n, 3)
+    if n == 0:
+        # the window keys are computed (a table of bound names, closures): the
+        # comparisons cannot be attributed to axes; the short-cut and the view
+        # selection are not decided either
+        run.unknowns.append("D3: Data.set_window compares no literal window bound "
+                            "(`window['lat_min']` ...) with a coordinate array; the "
+                            "closed-interval form, the coinciding-bounds short-cut and "
+                            "the view selection are not decided")
+        return
     # coinciding bounds => full range short-cut for both masks
     axes = sorted(short_axes)
     ok = axes == ["lat", "lon", "time"]
